@@ -353,6 +353,11 @@ func main() {
 		fmt.Println("C36-CHILD-OK", sum)
 		return
 	}
+	if filter := os.Getenv("C36_DUMP"); filter != "" {
+		// maintenance aid: C36_DUMP=all|<substring of a field name> prints the table of the tree VERIF_REPO
+		dumpTable(filter)
+		return
+	}
 	o := h.ParseOpts()
 	r := h.NewResult("C36", o)
 	repo := os.Getenv("VERIF_REPO")
@@ -565,4 +570,32 @@ func main() {
 		}
 	}
 	r.Write(o.Out)
+}
+
+func dumpTable(filter string) {
+	repo := os.Getenv("VERIF_REPO")
+	if repo == "" {
+		repo = "/repo"
+	}
+	t, err := racefacts.Analyze(repo)
+	if err != nil {
+		fmt.Println(err)
+		os.Exit(1)
+	}
+	count := map[string]int{}
+	for _, f := range t.Fields {
+		if f.Class == "lock" {
+			continue
+		}
+		v := t.Verdict(f.Name)
+		count[v.Kind]++
+		ss := t.SitesOf(f.Name)
+		fmt.Printf("%-48s %-7s %-45s sites=%d\n", f.Name, f.Class, v.String(), len(ss))
+		if filter == "all" || (filter == "cand" && v.Kind == "candidate") || strings.Contains(f.Name, filter) {
+			for _, s := range ss {
+				fmt.Printf("      %4d %s:%d %-40s %-10s fresh=%v W=%v R=%v roots=%v\n", s.ID, s.File, s.Line, s.Fn, s.Kind, s.Fresh, s.HeldW, s.HeldR, s.Roots)
+			}
+		}
+	}
+	fmt.Println("##", count, "sites", len(t.Sites))
 }
